@@ -9,6 +9,7 @@ R6.5  errors carry status and response (HTTPError.__init__, alias __init__ templ
 R6.6  the shared-core predicate holds for every layout [= R11.2]; R6.7 call-local memo keys in the loader cover the status code
 R6.9  the alias module regenerated for the union of all clients' codes imports ClientError and ServerError unconditionally          [= R11.4]
 R6.10 the registry of a core contained in the regenerated package (at any depth) survives the removal of that package              [= R11.5]
+R6.13 HttpxTransport.request sends once per call (no replay / retry site), so every answer it returns has passed the status guard      [= R4.21]
 R6.12 generated dispatch: an undeclared / range-declared 4xx or 5xx is classified (ClientError / ServerError) before the catch-all raises the base class
 R6.11 the bundled transport never switches httpx's redirect-following on (a 3xx with a Location header must reach the raise guard)
 R6.8  the exception registry is read, extended and written back as a union, never rebuilt (alias classes of other clients stay importable)  [= R11.1]
@@ -26,6 +27,23 @@ from sa.report import Report, with_flatten_fallback
 from sa.templates import template_of
 
 NON2XX = {c for c in DOMAIN if not 200 <= c <= 299}
+
+
+def _anc(node: ast.AST, root: ast.AST) -> List[ast.AST]:
+    """ancestors of `node` below `root` (statement nesting)"""
+    path: List[ast.AST] = []
+
+    def rec(cur: ast.AST, stack: List[ast.AST]) -> bool:
+        if cur is node:
+            path.extend(stack)
+            return True
+        for ch in ast.iter_child_nodes(cur):
+            if rec(ch, stack + [cur]):
+                return True
+        return False
+
+    rec(root, [])
+    return path
 
 
 def _helpers(repo: Repo) -> Dict[str, ast.AST]:
@@ -112,7 +130,22 @@ def run(repo: Repo, rep: Report, tier: str) -> None:
         # per status code, walk the CFG after the send call deciding every test by evaluation
         send_nodes = [n for n in cfg.nodes if n.ast is not None and n.kind == "stmt" and any(
             isinstance(c.func, ast.Attribute) and c.func.attr == "request" and "_client" in norm(c.func.value) for c in calls_in(n.ast))]
-        rep.require(len(send_nodes) == 1, f"R6.1: expected one send call in HttpxTransport.request, found {len(send_nodes)}")
+        rep.require(len(send_nodes) >= 1, "R6.1: no send call (`self._client.request(...)`) found in HttpxTransport.request (anchor)")
+        # R6.13 one call, one exchange: a second send site (a retry / replay in a handler or behind a status test) issues a second request for one
+        # awaited call, and what it returns has not passed the status guard that follows the first one
+        sub13 = f"{tr.module.relpath}:HttpxTransport.request one send per call"
+        uniq = sorted({n.lineno for n in send_nodes if not n.copy})
+        in_loop = [n for n in send_nodes if any(isinstance(a, (ast.For, ast.While, ast.AsyncFor)) for a in _anc(n.ast, tr.node))]
+        if len(uniq) > 1 or in_loop:
+            extra = [n for n in send_nodes if not n.copy and n.lineno != uniq[0]] or in_loop
+            unchecked = any(isinstance(n.ast, ast.Return) for n in extra)
+            rep.violation("R6.13", sub13, f"{tr.fq}|second-send|{'returned-unchecked' if unchecked else 'replayed'}",
+                          f"the request is sent from {len(uniq)} places ({'in a loop' if in_loop else 'lines ' + str(uniq)}): one awaited call can put two requests on the wire (the first may "
+                          "already have been processed by the server)" + ("; the answer of the second send is returned as it is - a non-2xx status reaches the caller as a value" if unchecked else ""),
+                          tr.loc(extra[0].ast))
+            send_nodes = [n for n in send_nodes if n.lineno == uniq[0]][:1]
+        else:
+            rep.ok("R6.13", sub13, "exactly one send site, outside loops and handlers; its answer goes through the status guard", tr.loc(send_nodes[0].ast))
         resp_var = "response"
         if send_nodes and isinstance(send_nodes[0].ast, (ast.Assign, ast.AnnAssign)):
             tg = send_nodes[0].ast.targets[0] if isinstance(send_nodes[0].ast, ast.Assign) else send_nodes[0].ast.target
@@ -192,6 +225,23 @@ def run(repo: Repo, rep: Report, tier: str) -> None:
     if he is None:
         raise AnalysisError("anchor vanished: HTTPError.__init__")
     assigns = {norm(n.targets[0]): norm(n.value) for n in own_nodes(he.node) if isinstance(n, ast.Assign)}
+    # building the error object is total: the constructors of HTTPError / ClientError / ServerError do nothing that can raise for some status
+    # (a table lookup such as `HTTPStatus(status_code)` raises ValueError for 499, 52x, ... - the caller gets that instead of an HTTPError)
+    for cname in ("HTTPError", "ClientError", "ServerError"):
+        ctor = exc_mod.classes[cname].methods.get("__init__") if cname in exc_mod.classes else None
+        if ctor is None:
+            continue
+        risky = [c for c in calls_in(ctor.node) if not (isinstance(c.func, ast.Attribute) and c.func.attr == "__init__")
+                 and not (isinstance(c.func, ast.Name) and c.func.id in ("super", "str", "repr", "int", "getattr", "isinstance", "type"))]
+        subs_ = [x for x in ast.walk(ctor.node) if isinstance(x, ast.Subscript) and isinstance(x.ctx, ast.Load)]
+        subc = f"{exc_mod.relpath}:{cname}.__init__ is total"
+        if risky or subs_:
+            bad = (risky or subs_)[0]
+            rep.violation("R6.5", subc, f"{ctor.fq}|constructor-can-fail|{norm(bad)[:40]}",
+                          f"`{norm(bad)[:60]}` is evaluated while the error object is built: for a status it does not know (499, 520, 306, ...) it raises, and the caller gets "
+                          "that exception instead of an HTTPError carrying status and response", ctor.loc(bad))
+        else:
+            rep.ok("R6.5", subc, "stores its arguments; nothing in it can raise for a particular status", ctor.loc())
     for attr in ("status_code", "response"):
         if assigns.get(f"self.{attr}") == attr:
             rep.ok("R6.5", f"{exc_mod.relpath}:HTTPError.__init__ self.{attr}", "stored from the constructor argument", he.loc())
